@@ -58,6 +58,28 @@ def compare(chk, mode_args, lines_in, keys_of, stats):
         return
     impl = [l.split(" ") for l in o1.splitlines() if l.strip()]
     mod = [l.split(" ") for l in o2.splitlines() if l.strip()]
+    # the same patterns compiled and matched by 8 goroutines at once: a compiled pattern belongs to the caller that compiled it
+    import os
+    rc3, o3, _ = vlib.run_harness(["glob"] + mode_args, inp, env=dict(os.environ, VERIF_GLOB_PAR="8"))
+    impl_par = [l.split(" ") for l in o3.splitlines() if l.strip()]
+    if rc3 != 0 or len(impl_par) != len(impl):
+        chk.violation("harness-failure", "glob harness with 8 concurrent callers: rc=%d, %d lines for %d cases: %s" % (rc3, len(impl_par), len(impl), o3[-300:]),
+                      dict(stage="run"), no_failing_input="panic" not in o3 and "fatal error" not in o3)
+        return
+    stats["concurrent_rows"] = stats.get("concurrent_rows", 0) + len(impl_par)
+    for li, (a, b) in enumerate(zip(impl, impl_par)):
+        if a != b and a[1] == "1":
+            p = unhx(a[0]); keys = keys_of(li)
+            if b[1] != "1":
+                chk.violation("concurrent-compile", "glob.Compile(%r) %s when 8 goroutines compile patterns at the same time (alone it succeeds)" % (p, "panics" if b[1] == "P" else "returns an error"),
+                              dict(pattern_hex=hx(p), pattern=repr(p), concurrent_callers=8, neighbours=[l.split(" ")[0] for l in lines_in[max(0, li - 8):li + 9]]))
+            else:
+                il, jl = bits_to_list(a[3], len(keys)), bits_to_list(b[3], len(keys))
+                j = next((i for i in range(len(keys)) if il[i] != jl[i]), None)
+                chk.violation("concurrent-match", "pattern %r compiled while 7 other goroutines compile other patterns: expression %r%s (compiled alone: %r)" % (
+                                  p, unhx(b[2]), "" if j is None else ", key %r matches=%s" % (keys[j], bool(jl[j])), unhx(a[2])),
+                              dict(pattern_hex=hx(p), pattern=repr(p), concurrent_callers=8, regexp_source=unhx(b[2]).decode("latin1"), neighbours=[l.split(" ")[0] for l in lines_in[max(0, li - 8):li + 9]]))
+            break
     if len(impl) != len(lines_in) or len(mod) != len(lines_in):
         chk.violation("harness-failure", "line count mismatch impl=%d model=%d cases=%d" % (len(impl), len(mod), len(lines_in)),
                       dict(stage="run"), no_failing_input=True)
